@@ -26,6 +26,7 @@ from EasyFEA import Models, Simulations
 from EasyFEA.FEM import FeArray
 from EasyFEA.Models import InElastic as IE
 
+from . import _suite
 from ..core import Ctx, quiet, relerr
 from . import _sims
 
@@ -102,6 +103,9 @@ def cases(tier: str, seed: int) -> list[dict]:
         tag = "-".join(str(c.get(k)) for k in ("surf", "hard", "kin", "rate", "branches", "dims", "solver", "dim", "et") if c.get(k) is not None)
         c["id"] = f"C19-{i:05d}-{c['fam']}-{tag}"
         c["index"] = i
+    for c in _suite.suite_cases(PROP, tier):
+        c["index"] = len(out)
+        out.append(c)
     return out
 
 
@@ -492,5 +496,7 @@ def run_simulation(case, ctx, rng):
 
 
 def run_case(case: dict, ctx: Ctx) -> None:
+    if case.get("fam") == "suite":
+        return _suite.run_suite(case, ctx, PROP)
     rng = np.random.default_rng([case["seed"], NUM, case["index"]])
     {"path": run_path, "elastic": run_elastic, "simulation": run_simulation}[case["fam"]](case, ctx, rng)
